@@ -11,10 +11,6 @@ variable {P O T V E : Type}
 /-- A result conversion of a type's own `Parse` that does what `ParseComplexStrict`'s tail does. -/
 def ConvOK (conv : Bool → Cpx.Res V E → Cpx.Res V E) : Prop := ∀ rPtr r, conv rPtr r = adapt rPtr r
 
-/-- A type's `Parse` = its result conversion applied to `ParseComplex`'s answer. -/
-def typeParse (conv : Bool → Cpx.Res V E → Cpx.Res V E) (env : CEnv P O T V E) (c : CCfg P O T V) (x : CIn V) : Cpx.Res V E :=
-  conv c.i.ptrSchema (parse env c x)
-
 /-- **C09 (complex engine path), full strength.** For every validator, every behaviour of the checks on
     pointers / defaults / nil, every transform, every configuration (checks, Optional, Nilable,
     NonOptional, Default(Func), Prefault(Func), lazy, struct, pointer T, missing validator) and EVERY
@@ -158,10 +154,6 @@ example : strictParse lEnv { i := { ptrSchema := true, nilable := true } } (valI
   `c09_table_wrappers` (whole regenerated table) establishes that on every schema type `ParseAny` is
   `fwd Parse` and `Must<X>` is `must X`; these theorems say what those two shapes do. -/
 
-/-- **`ParseAny` returns what `Parse` returns — on every input**, ill-typed ones included: the wrapper
-    hands its argument on untouched. -/
-theorem c09_parseAny_eq_parse_all {I A : Type} (parse : I → Except E A) (x : I) : fwd parse x = parse x := rfl
-
 /-- **Each `Must` variant returns that result or panics with that same error** (and does nothing else). -/
 theorem c09_must_returns_or_panics {I A : Type} (f : I → Except E A) (x : I) :
     (∃ a, f x = .ok a ∧ must f x = .returned a) ∨ (∃ e, f x = .error e ∧ must f x = .panicked e) := by
@@ -182,6 +174,43 @@ theorem must_panicked_iff {I A : Type} (f : I → Except E A) (x : I) (e : E) :
     agrees with `Parse` on an input, `MustStrictParse` agrees with `MustParse` on it. -/
 theorem must_congr {I A : Type} (f g : I → Except E A) (x : I) (h : f x = g x) : must f x = must g x := by
   unfold must; rw [h]
+
+/-- **The six entry points stand or fall with the (`Parse`, `StrictParse`) pair.** Whatever a type's `Parse` and
+    `StrictParse` are: where they agree on an input, all six entry points — assembled the way the regenerated table says
+    every type assembles them (`six`) — answer with `Parse`'s result, the `Must` variants by returning it or panicking
+    with that very error. -/
+theorem c09_six_agree {I A : Type} (P S : I → Except E A) (x : I) (h : S x = P x) :
+    (six P S x).s = (six P S x).p ∧ (six P S x).a = (six P S x).p ∧ (six P S x).ms = (six P S x).mp ∧
+    (six P S x).ma = (six P S x).mp ∧
+    (∀ e, P x = .error e → (six P S x).mp = .panicked e) ∧ (∀ r, P x = .ok r → (six P S x).mp = .returned r) := by
+  simp only [six, fwd, must, h]
+  refine ⟨trivial, trivial, trivial, trivial, ?_, ?_⟩
+  · intro e he; rw [he]
+  · intro r hr; rw [hr]
+
+/-- `ParseAny`, `MustParse` and `MustParseAny` follow `Parse` on EVERY input (no hypothesis on the strict pair): the
+    wrapper shapes never look at their argument. -/
+theorem c09_six_any_follow_parse {I A : Type} (P S : I → Except E A) (x : I) :
+    (six P S x).a = (six P S x).p ∧ (six P S x).ma = (six P S x).mp ∧
+    ((∃ r, (six P S x).p = .ok r ∧ (six P S x).mp = .returned r) ∨ (∃ e, (six P S x).p = .error e ∧ (six P S x).mp = .panicked e)) :=
+  ⟨rfl, rfl, c09_must_returns_or_panics P x⟩
+
+/-- A disagreeing pair shows in the six: the statement above is not vacuous (a `StrictParse` that returns its input). -/
+example : (six (fun (n : Nat) => if n < 3 then (.error "small" : Except String Nat) else .ok n) (fun n => .ok n) 1).ms = .returned 1 ∧
+    (six (fun (n : Nat) => if n < 3 then (.error "small" : Except String Nat) else .ok n) (fun n => .ok n) 1).mp = .panicked "small" := by decide
+
+/-- ZodSlice: all six entry points on every input, for every validator and configuration. -/
+theorem c09_slice_six (env : CEnv P O T V E) (c : CCfg P O T V) (x : CIn V) :
+    let r := six (fun y => (typeParse sliceConv env c y).toExcept) (fun y => (strictParse env c y).toExcept) x
+    r.s = r.p ∧ r.a = r.p ∧ r.ms = r.mp ∧ r.ma = r.mp := by
+  have h := c09_six_agree (fun y => (typeParse sliceConv env c y).toExcept) (fun y => (strictParse env c y).toExcept) x
+    (by simp only [c09_slice_strict_eq_parse])
+  exact ⟨h.1, h.2.1, h.2.2.1, h.2.2.2.1⟩
+
+example : (six (fun y => (typeParse sliceConv lEnv { i := { checks := [.pred 0 false none] } } y).toExcept)
+    (fun y => (strictParse lEnv { i := { checks := [.pred 0 false none] } } y).toExcept) (valIn false 5)).mp = .panicked 7 := by decide
+example : (six (fun y => (typeParse sliceConv lEnv { i := { ptrSchema := true, nilable := true } } y).toExcept)
+    (fun y => (strictParse lEnv { i := { ptrSchema := true, nilable := true } } y).toExcept) (valIn true 12)).ms = .returned (.ptr 12) := by decide
 
 example : must (fun (n : Nat) => if n < 3 then (.error "small" : Except String Nat) else .ok n) 1 = .panicked "small" := by decide
 example : must (fun (n : Nat) => if n < 3 then (.error "small" : Except String Nat) else .ok n) 5 = .returned 5 := by decide
